@@ -16,7 +16,10 @@ import (
 	"fmt"
 	"os"
 	"runtime"
+	"runtime/debug"
+	"runtime/pprof"
 	"sort"
+	"strings"
 	"sync"
 	"sync/atomic"
 	"time"
@@ -26,11 +29,15 @@ import (
 
 type config struct{ accept, rh, order string }
 
+// plan fixes, per tier, which (Accept, ResponseHeaders, order) configurations every
+// (document, operationName, carrier) triple is sent under. "small" documents have at most
+// fullOps operations.
 type plan struct {
-	maxOps int
-	// full product for documents with <= fullOps operations, reduced product above
-	fullOps            int
-	full, reduced, apq []config
+	maxOps, fullOps int
+	// executing carriers / non-executing carriers (GET-badqs, HEAD, OPTIONS, PUT) / APQ carriers
+	execSmall, execLarge   []config
+	otherSmall, otherLarge []config
+	apq                    []config
 }
 
 func product(accepts, rhs, orders []string) []config {
@@ -47,15 +54,21 @@ func product(accepts, rhs, orders []string) []config {
 
 func makePlan(tier string) plan {
 	all := product(acceptAlphabet(), rhAlphabet, orderAlphabet)
+	singles := product(acceptSingles, rhAlphabet, orderAlphabet)
 	if tier == "thorough" {
-		return plan{maxOps: 3, fullOps: 3, full: all, reduced: all,
-			apq: product(acceptSingles, rhAlphabet, []string{"default"})}
+		// the complete product for every document and every carrier
+		return plan{maxOps: 3, fullOps: 3, execSmall: all, execLarge: all, otherSmall: all, otherLarge: all, apq: singles}
 	}
-	// quick: complete product for documents with up to 2 operations; documents with 3 operations
-	// get the single-value Accept headers x all ResponseHeaders settings in the default order
-	return plan{maxOps: 3, fullOps: 2, full: all,
-		reduced: product(acceptSingles[:4], rhAlphabet, []string{"default"}),
-		apq:     product(acceptSingles[:4], []string{"nil", "ct-gr"}, []string{"default"})}
+	// quick: for executing carriers on documents with up to 2 operations every Accept value x every
+	// ResponseHeaders setting in the default order plus the single-value Accept headers in the
+	// reversed order; documents with 3 operations and non-executing carriers get smaller products
+	return plan{maxOps: 3, fullOps: 2,
+		execSmall: append(product(acceptAlphabet(), rhAlphabet, []string{"default"}),
+			product(acceptSingles, rhAlphabet, []string{"reversed"})...),
+		execLarge:  product(acceptSingles[:4], rhAlphabet, []string{"default"}),
+		otherSmall: singles,
+		otherLarge: product([]string{"", mtGR}, []string{"nil", "custom"}, []string{"default"}),
+		apq:        product(acceptSingles[:4], []string{"nil", "ct-gr"}, []string{"default"})}
 }
 
 type hit struct {
@@ -63,17 +76,56 @@ type hit struct {
 	c         Case
 	what      string
 	count     int
+	facets    map[string]map[string]bool
+}
+
+func (h *hit) addFacets(fs [][2]string) {
+	for _, f := range fs {
+		if h.facets[f[0]] == nil {
+			h.facets[f[0]] = map[string]bool{}
+		}
+		h.facets[f[0]][f[1]] = true
+	}
+}
+
+// signature = group + "|facet=v1+v2…" for every facet, names and values sorted
+func (h *hit) signature(group string) string {
+	var names []string
+	for n := range h.facets {
+		names = append(names, n)
+	}
+	sort.Strings(names)
+	sig := group
+	for _, n := range names {
+		var vals []string
+		for v := range h.facets[n] {
+			vals = append(vals, v)
+		}
+		sort.Strings(vals)
+		sig += "|" + n + "=" + strings.Join(vals, "+")
+	}
+	return sig
 }
 
 type tally struct {
 	evals, nontrivial int
 	byOutcome         map[string]int
 	byCarrier         map[string]int
-	hits              map[string]*hit
+	hits              map[string]*hit // by group
 }
 
 func newTally() *tally {
 	return &tally{byOutcome: map[string]int{}, byCarrier: map[string]int{}, hits: map[string]*hit{}}
+}
+
+func (t *tally) record(docIdx, k int, cs Case, v Violation) {
+	h, ok := t.hits[v.Group]
+	if !ok {
+		h = &hit{docIdx: docIdx, k: k, c: cs, what: v.What, facets: map[string]map[string]bool{}}
+		t.hits[v.Group] = h
+	}
+	h.count++
+	h.addFacets(v.Facets)
 }
 
 func (t *tally) merge(o *tally) {
@@ -85,33 +137,44 @@ func (t *tally) merge(o *tally) {
 	for k, v := range o.byCarrier {
 		t.byCarrier[k] += v
 	}
-	for s, h := range o.hits {
-		if cur, ok := t.hits[s]; !ok {
-			t.hits[s] = h
-		} else {
-			n := cur.count + h.count
-			if h.docIdx < cur.docIdx || (h.docIdx == cur.docIdx && h.k < cur.k) {
-				t.hits[s] = h
+	for g, h := range o.hits {
+		cur, ok := t.hits[g]
+		if !ok {
+			t.hits[g] = h
+			continue
+		}
+		if h.docIdx < cur.docIdx || (h.docIdx == cur.docIdx && h.k < cur.k) {
+			cur.docIdx, cur.k, cur.c, cur.what = h.docIdx, h.k, h.c, h.what
+		}
+		cur.count += h.count
+		for n, vals := range h.facets {
+			for v := range vals {
+				cur.addFacets([][2]string{{n, v}})
 			}
-			t.hits[s].count = n
 		}
 	}
 }
 
 // casesFor enumerates every case of one document, in a fixed order.
 func casesFor(d DocSpec, p plan, f func(Case)) {
-	cfgs := p.full
-	if len(d.Ops) > p.fullOps {
-		cfgs = p.reduced
-	}
+	large := len(d.Ops) > p.fullOps
 	for _, on := range opNameChoices(d) {
 		for _, car := range carriers {
 			if !car.OpName && on.Has {
 				continue
 			}
-			cs := cfgs
-			if car.APQ {
+			var cs []config
+			switch {
+			case car.APQ:
 				cs = p.apq
+			case car.Executes && !large:
+				cs = p.execSmall
+			case car.Executes:
+				cs = p.execLarge
+			case !large:
+				cs = p.otherSmall
+			default:
+				cs = p.otherLarge
 			}
 			for _, g := range cs {
 				f(Case{Doc: d, OpName: on, Carrier: car.Name, Accept: g.accept, RH: g.rh, Order: g.order})
@@ -131,6 +194,15 @@ func main() {
 	} else {
 		c.Budget(150 * time.Second)
 	}
+	// many short-lived allocations per request and a tiny live heap: keep the collector from
+	// running every few megabytes
+	debug.SetGCPercent(2000)
+	if f := os.Getenv("C09_CPUPROFILE"); f != "" { // development aid
+		if w, err := os.Create(f); err == nil {
+			pprof.StartCPUProfile(w)
+			defer pprof.StopCPUProfile()
+		}
+	}
 	p := makePlan(c.Tier)
 	docs := enumerateDocs(p.maxOps)
 
@@ -146,6 +218,7 @@ func main() {
 			t := newTally()
 			results[w] = t
 			r := newRig()
+			bc := bodyCache{}
 			for {
 				i := int(atomic.AddInt64(&next, 1))
 				if i >= len(docs) || c.Expired() {
@@ -162,12 +235,8 @@ func main() {
 					if e.Outcome == "execute" || e.Outcome == "refuse-get" || e.Outcome == "refuse-doc" {
 						t.nontrivial++
 					}
-					for _, v := range check(cs, e, o) {
-						if h, ok := t.hits[v.Sig]; ok {
-							h.count++
-						} else {
-							t.hits[v.Sig] = &hit{docIdx: i, k: k, c: cs, what: v.What, count: 1}
-						}
+					for _, v := range check(cs, e, o, bc) {
+						t.record(i, k, cs, v)
 					}
 				})
 				atomic.AddInt64(&done, 1)
@@ -184,14 +253,17 @@ func main() {
 
 	// report in a fixed order, each signature with its first witness (lowest document, lowest case)
 	var sigs []string
-	for s := range total.hits {
+	bySig := map[string]*hit{}
+	for g, h := range total.hits {
+		s := h.signature(g)
 		sigs = append(sigs, s)
+		bySig[s] = h
 	}
 	sort.Strings(sigs)
 	sigCounts := map[string]int{}
 	r := newRig()
 	for _, s := range sigs {
-		h := total.hits[s]
+		h := bySig[s]
 		sigCounts[s] = h.count
 		o, w := r.run(h.c)
 		c.Report(s, h.what, map[string]any{"case": h.c, "document": h.c.Doc.Text(), "request": w,
@@ -217,19 +289,22 @@ func main() {
 	c.Cov["by_carrier"] = total.byCarrier
 	c.Cov["disagreeing_cases_by_signature"] = sigCounts
 	c.Cov["bounds"] = map[string]any{
-		"operations_per_document":    fmt.Sprintf("1..%d", p.maxOps),
-		"operation_alphabet":         opAlphabet(),
-		"faults":                     []string{"none", "parse error in operation i", "unknown field in operation i", "(implied) anonymous operation not alone"},
-		"operation_name":             "absent, each defined name, one unknown name",
-		"carriers":                   carrierNames(),
-		"accept_values":              len(acceptAlphabet()),
-		"accept_singles":             acceptSingles,
-		"response_headers":           rhAlphabet,
-		"registration_orders":        orderAlphabet,
-		"full_product_up_to_ops":     p.fullOps,
-		"configs_full_product":       len(p.full),
-		"configs_above_full_product": len(p.reduced),
-		"configs_apq":                len(p.apq),
+		"operations_per_document": fmt.Sprintf("1..%d", p.maxOps),
+		"operation_alphabet":      opAlphabet(),
+		"faults":                  []string{"none", "parse error in operation i", "unknown field in operation i", "(implied) anonymous operation not alone"},
+		"operation_name":          "absent, each defined name, one unknown name",
+		"carriers":                carrierNames(),
+		"accept_values":           len(acceptAlphabet()),
+		"accept_singles":          acceptSingles,
+		"response_headers":        rhAlphabet,
+		"registration_orders":     orderAlphabet,
+		"configs_per_triple": map[string]int{
+			fmt.Sprintf("executing carriers, documents with <=%d operations", p.fullOps):     len(p.execSmall),
+			fmt.Sprintf("executing carriers, documents with >%d operations", p.fullOps):      len(p.execLarge),
+			fmt.Sprintf("non-executing carriers, documents with <=%d operations", p.fullOps): len(p.otherSmall),
+			fmt.Sprintf("non-executing carriers, documents with >%d operations", p.fullOps):  len(p.otherLarge),
+			"APQ carriers": len(p.apq),
+		},
 	}
 	c.Assume = []string{
 		"handler.Server is driven through ServeHTTP with httptest recorders; no sockets, no net/http server (so net/http's own Content-Type sniffing and HEAD body stripping are not in the loop)",
@@ -238,6 +313,7 @@ func main() {
 		"subscriptions are scripted to emit one event, so a subscription executed over POST yields one data payload",
 		"gqlparser's parser and validator decide parse/validation failures inside gqlgen; the reference classifies documents by construction (injected fault, lone-anonymous rule)",
 	}
+	pprof.StopCPUProfile()
 	c.Finish()
 }
 
@@ -289,13 +365,13 @@ func replay(path string) {
 	show("request", w)
 	show("reference expects", e)
 	show("observed", o)
-	vs := check(cs, e, o)
+	vs := check(cs, e, o, bodyCache{})
 	if len(vs) == 0 {
 		fmt.Println("oracle: no disagreement")
 		os.Exit(0)
 	}
 	for _, v := range vs {
-		fmt.Printf("oracle: %s\n  %s\n", v.Sig, v.What)
+		fmt.Printf("oracle: %s %v\n  %s\n", v.Group, v.Facets, v.What)
 	}
 	os.Exit(1)
 }
